@@ -299,7 +299,7 @@ pub fn run(p: &Params) -> Run {
         }
     }
 
-    let n = p.n(900, 30_000);
+    let n = p.n(4000, 30_000);
     for i in 0..n {
         let invalid = i % 3 == 0;
         let mut content = gen_content(&mut rng, if i % 5 == 0 { 40 } else { 12 }, invalid);
@@ -311,7 +311,7 @@ pub fn run(p: &Params) -> Run {
     }
 
     // long lines (longer than BufReader's 8 KiB buffer)
-    let n_long = p.n(8, 60);
+    let n_long = p.n(16, 60);
     for i in 0..n_long {
         let len = if p.tier_thorough && i % 4 == 0 { 100_000 } else { 8_000 + rng.below(12_000) };
         let mut content = gen_content(&mut rng, 3, false);
@@ -329,7 +329,7 @@ pub fn run(p: &Params) -> Run {
     }
 
     // joined-file loader
-    let n_join = p.n(150, 3000);
+    let n_join = p.n(600, 3000);
     for i in 0..n_join {
         let main = gen_content(&mut rng, 8, i % 5 == 0);
         let joined = gen_content(&mut rng, 8, i % 4 == 0);
